@@ -82,12 +82,27 @@ func genC07(t *rapid.T) C07Case {
 	cfg.RequireOrder = 0 // after a require-order stop everything is verbatim text: the two spellings differ by construction (C09 covers it)
 	spec := GenProg(t, cfg)
 	c := C07Case{Spec: spec}
-	c.Rel = rapid.SampledFrom([]string{"normal", "bundle", "bundle", "singledash", "singledash", "long-modes"}).Draw(t, "rel")
+	c.Rel = rapid.SampledFrom([]string{"normal", "bundle", "bundle", "bundle-long", "singledash", "singledash", "long-modes"}).Draw(t, "rel")
 	lv := spec.Levels()
-	c.Pre = longOnly(t, lv, rapid.IntRange(0, 2).Draw(t, "npre"), "pre")
+	var path []string
+	if rapid.Bool().Draw(t, "incmd") {
+		// the focus token stands after a command token: same rewriting rules inside commands
+		var cands []string
+		for _, n := range lv.ChildSeq {
+			if !lv.Children[n].IsHelpCmd && len(lv.Children[n].Visible) > 0 {
+				cands = append(cands, n)
+			}
+		}
+		if len(cands) > 0 {
+			n := rapid.SampledFrom(cands).Draw(t, "cmdlevel")
+			path = []string{n}
+			lv = lv.Children[n]
+		}
+	}
+	c.Pre = append(append(Toks{}, path...), longOnly(t, lv, rapid.IntRange(0, 2).Draw(t, "npre"), "pre")...)
 	// do not let pre descend: keep words out of the command names
 	for i, w := range c.Pre {
-		if _, ok := lv.Children[w]; ok {
+		if _, ok := lv.Children[w]; ok && i >= len(path) {
 			c.Pre[i] = "foo"
 		}
 	}
@@ -152,7 +167,7 @@ func genC07(t *rapid.T) C07Case {
 		c.Tok = BS("-" + tok)
 		c.Rewrite = Toks{"--" + tok}
 		c.Shape = "name"
-	case "bundle":
+	case "bundle", "bundle-long":
 		spec.Mode = ModeBundling
 		if len(singles) == 0 {
 			c.Rel = "long-modes"
@@ -166,11 +181,15 @@ func genC07(t *rapid.T) C07Case {
 		z := rapid.SampledFrom(singles).Draw(t, "bz")
 		letters = append(letters, z)
 		tok := "-" + strings.Join(letters, "")
+		rwDash := "-"
+		if c.Rel == "bundle-long" {
+			rwDash = "--" // a bundled letter x denotes option x, and long options do not depend on the mode
+		}
 		rw := Toks{}
 		for _, l := range letters[:len(letters)-1] {
-			rw = append(rw, "-"+l)
+			rw = append(rw, rwDash+l)
 		}
-		last := "-" + z
+		last := rwDash + z
 		if rapid.IntRange(0, 2).Draw(t, "bval") == 0 {
 			v := rest("bv", lv.Visible[z].Spec)
 			tok += "=" + v
@@ -202,7 +221,7 @@ func genC07(t *rapid.T) C07Case {
 		c.Tok = ""
 		c.Rewrite = nil
 		c.Shape = "long"
-		c.Pre = longOnly(t, lv, rapid.IntRange(1, 6).Draw(t, "nlong"), "long")
+		c.Pre = append(append(Toks{}, path...), longOnly(t, lv, rapid.IntRange(1, 6).Draw(t, "nlong"), "long")...)
 	}
 	c.Post = longOnly(t, lv, rapid.IntRange(0, 2).Draw(t, "npost"), "post")
 	if rapid.Bool().Draw(t, "postval") {
@@ -314,7 +333,7 @@ func checkC07(c C07Case, st *evid.Stats) error {
 }
 
 var propC07 = &Prop[C07Case]{ID: "C07", Sub: "modes",
-	Rule:  "rapid: definitions rich in single-letter (incl. multibyte) flag and valued options; relation drawn from {Normal: -name[=v] vs --name[=v]; Bundling: -xyz[=v] (x,y declared flags, z any declared letter) vs -x -y -z[=v]; SingleDash: -xREST vs --x=REST and -x vs --x; long-only argv in all 3 modes}; REST/v from hostile pools or random bytes ('=', newlines, invalid UTF-8, multibyte); surrounded by long-form tokens; non-trivial = token longer than 2 runes or non-ASCII (long-modes: >=2 tokens); distinct by (relation, shape, token)",
+	Rule:  "rapid: definitions rich in single-letter (incl. multibyte) flag and valued options; relation drawn from {Normal: -name[=v] vs --name[=v]; Bundling: -xyz[=v] (x,y declared flags, z any declared letter) vs -x -y -z[=v] and vs --x --y --z[=v]; the token stands at the root or after a command token; SingleDash: -xREST vs --x=REST and -x vs --x; long-only argv in all 3 modes}; REST/v from hostile pools or random bytes ('=', newlines, invalid UTF-8, multibyte); surrounded by long-form tokens; non-trivial = token longer than 2 runes or non-ASCII (long-modes: >=2 tokens); distinct by (relation, shape, token)",
 	Gen:   genC07,
 	Check: checkC07,
 }
